@@ -28,14 +28,36 @@ def gen_scripts(ctx, quick):
 
     def one(a):
         k, (n, mgmt, fails, ops) = a
-        r = ctx.tlc("LifecycleGen", cfg_text=vlib.cfg_text(spec="GenSpec", constants=consts(n, mgmt, fails, ops)),
+        cc = consts(n, mgmt, fails, ops)
+        cc["Slow"] = "{%d}" % n if k % 3 == 1 else "{}"     # every third configuration: the last module is the slowest
+        cc["Target"] = '"none"'
+        r = ctx.tlc("LifecycleGen", cfg_text=vlib.cfg_text(spec="GenSpec", constants=cc),
                     mode="simulate", num=per, depth=120, seed=ctx.seed * 131 + k, timeout=900, count=False)
         return r.emitted()
     scripts = []
     for part in ctx.pmap(one, list(enumerate(cfgs))):
         scripts.extend(part)
+    # directed scripts: behaviours that reach "two start routines failed while a third is still running"; the script
+    # then asks for Shutdown at once (taken only if Start has really returned) and lets the slow routine finish
+    def directed(k):
+        n = 3 + k % 2
+        cc = consts(n, False, 2, 0)
+        cc["Slow"] = "{%d}" % n
+        cc["Target"] = '"twofails"'
+        r = ctx.tlc("LifecycleGen", cfg_text=vlib.cfg_text(spec="GenSpec", constants=cc), mode="simulate", num=40 if quick else 200,
+                    depth=120, seed=ctx.seed * 17 + k, timeout=900, count=False)
+        out = []
+        for g in r.emitted():
+            g["steps"] = g["steps"] + [{"op": "shutdown", "m": 0, "ok": True}] + \
+                [{"op": "finish", "m": m, "ok": True} for m in range(1, g["n"] + 1)] * 2
+            g["directed"] = "twofails"
+            out.append(g)
+        return out
+    for part in ctx.pmap(directed, range(2)):
+        scripts.extend(part[:20 if quick else 150])
     rnd = random.Random(ctx.seed)
-    for s in scripts:
+    for i, s in enumerate(scripts):
+        s["eager"] = i % 2 == 0 or bool(s.get("directed"))   # an adversarial environment: the next API call follows a return at once
         for st in s["steps"]:
             if st["op"] == "finish" and not st["ok"]:
                 st["how"] = rnd.choice(["error", "panic"])
